@@ -135,6 +135,26 @@ int main(void)
             }
             if (ctx) flatcc_destroy_context(ctx);
             free(src);
+        } else if (n >= 3 && !strcmp(tok[0], "falign")) {
+            /* falign <natural alignment 1|2|4|8> <token>: struct S (force_align: <token>) { x:<scalar of that size>; }
+               -> ok <alignment of S as the binary schema reports it> <size> | reject */
+            char src[512]; size_t bsize = 0; void *bfbs; int ret; unsigned long nat = strtoul(tok[1], 0, 10);
+            flatcc_options_t opts; flatcc_context_t ctx;
+            snprintf(src, sizeof src, "struct S (force_align: %.200s) { x:%s; } table T { s:S; }", tok[2],
+                     nat == 1 ? "ubyte" : nat == 2 ? "ushort" : nat == 4 ? "uint" : "ulong");
+            flatcc_init_options(&opts); opts.bgen_bfbs = 1; ndiag = 0;
+            ctx = flatcc_create_context(&opts, "h_schema", on_error, 0);
+            ret = flatcc_parse_buffer(ctx, src, strlen(src));
+            if (ret) printf("reject\n");
+            else if (!(bfbs = flatcc_generate_binary_schema(ctx, &bsize))) printf("nobfbs\n");
+            else {
+                reflection_Schema_table_t S = reflection_Schema_as_root(bfbs); reflection_Object_vec_t objs = reflection_Schema_objects(S);
+                size_t k = reflection_Object_vec_find(objs, "S");
+                if (k == flatbuffers_not_found) printf("nostruct\n");
+                else printf("ok %d %d\n", reflection_Object_minalign(reflection_Object_vec_at(objs, k)), reflection_Object_bytesize(reflection_Object_vec_at(objs, k)));
+                free(bfbs);
+            }
+            flatcc_destroy_context(ctx);
         } else if (n >= 4 && (!strcmp(tok[0], "lit") || !strcmp(tok[0], "enum"))) {
             /* lit <optbits> <type> <hex token>   : table T { x:<type> = <token>; }  -> ok <default as uint64> | reject
                enum <optbits> <type> <v,v,_,...>  : enum E:<type> { M0 = v, M1, ... }  -> ok v0,v1,... (as uint64) | reject
